@@ -44,6 +44,28 @@ func (checker *ChecksumChecker) IsUpToDate(t *ast.Task) (bool, error) {
 		return false, nil
 	}
 
+	// For each specified 'generates' field, check whether the files actually exist.
+	// This comes before the new checksum is recorded: an error here ends the run
+	// before any command started, and must not leave the checksum of that attempt.
+	generatesExist := true
+	for _, g := range t.Generates {
+		if g.Negate {
+			continue
+		}
+		generates, err := glob(t.Dir, g.Glob)
+		if os.IsNotExist(err) {
+			generatesExist = false
+			break
+		}
+		if err != nil {
+			return false, err
+		}
+		if len(generates) == 0 {
+			generatesExist = false
+			break
+		}
+	}
+
 	if !checker.dry && oldHash != newHash {
 		_ = os.MkdirAll(filepathext.SmartJoin(checker.tempDir, "checksum"), 0o755)
 		if err = os.WriteFile(checksumFile, []byte(newHash+"\n"), 0o644); err != nil {
@@ -51,26 +73,7 @@ func (checker *ChecksumChecker) IsUpToDate(t *ast.Task) (bool, error) {
 		}
 	}
 
-	if len(t.Generates) > 0 {
-		// For each specified 'generates' field, check whether the files actually exist
-		for _, g := range t.Generates {
-			if g.Negate {
-				continue
-			}
-			generates, err := glob(t.Dir, g.Glob)
-			if os.IsNotExist(err) {
-				return false, nil
-			}
-			if err != nil {
-				return false, err
-			}
-			if len(generates) == 0 {
-				return false, nil
-			}
-		}
-	}
-
-	return oldHash == newHash, nil
+	return generatesExist && oldHash == newHash, nil
 }
 
 func (checker *ChecksumChecker) Value(t *ast.Task) (any, error) {
